@@ -147,7 +147,7 @@ Next == \/ \E u \in {0, 1} : MessageStart(3 * u)
         \/ MessageStop \/ End
         \/ \E s \in MCStops, u \in {0, 1} :
                \E bs \in {exp.items, <<TextBlk(AllText(exp.items))>> \o SelectSeq(exp.items, LAMBDA b : b.k = "tool")} :
-                   phase = "init" /\ Buffered(bs, s, 3 * u, 5 * u)   \* MC: buffered form first
+                   phase = "done" /\ Buffered(bs, s, 3 * u, 5 * u)   \* MC: buffered form last (keeps the model small)
 Spec == Init /\ [][Next]_vars
 
 MCConstraint == Len(hist) <= MaxOut
